@@ -1,5 +1,6 @@
 import AoVerif.Drive.Util
 import AoVerif.Gen.Effects
+import AoVerif.Gen.EffectsCorpus
 namespace AoVerif.Drive.C20
 open AoVerif.Effects
 
@@ -8,6 +9,10 @@ def handle (args : List String) : Option String :=
   match args with
   | ["eff", name] => do
       let e ← AoVerif.Gen.progs.find? (fun e => e.1 == name)
+      let (w, g) := summary e.2
+      pure s!"{e.2.k} {e.2.m} | {" ".intercalate (w.map toString)} | {if g then 1 else 0} | {if pureCheck e.2 then 1 else 0}"
+  | ["corpus", name] => do
+      let e ← AoVerif.GenCorpus.progs.find? (fun e => e.1 == name)
       let (w, g) := summary e.2
       pure s!"{e.2.k} {e.2.m} | {" ".intercalate (w.map toString)} | {if g then 1 else 0} | {if pureCheck e.2 then 1 else 0}"
   | _ => none
